@@ -52,6 +52,9 @@ var identTokens = []tokDef{
 	{"", `"if"`, []string{"if"}}, {"", `"in"`, []string{"in"}}, {"", `"int"`, []string{"int"}},
 }
 
+// manyKeywords: with all of them the identifier token owns far more than sixteen accepting states
+var manyKeywords = []string{"var", "val", "vat", "vary", "void", "while", "when", "where", "with", "do", "done", "down", "def", "del", "delta", "define"}
+
 var otherTokens = []tokDef{
 	{"NUM = /[0-9]+/", "NUM", []string{"0", "42", "007"}},
 	{"FLT = /[0-9]+\\.[0-9]+/", "FLT", []string{"1.5", "0.25"}},
@@ -101,6 +104,11 @@ func genSpec(t *rapid.T) specGen {
 		for _, kw := range identTokens[1:] {
 			if rapid.Bool().Draw(t, "kw") {
 				defs = append(defs, kw)
+			}
+		}
+		if rapid.IntRange(0, 3).Draw(t, "manyKeywords") == 0 {
+			for _, w := range manyKeywords {
+				defs = append(defs, tokDef{"", `"` + w + `"`, []string{w}})
 			}
 		}
 	}
@@ -303,6 +311,9 @@ func compare(p *prepared, text string, res *emit.LexResult) error {
 	case end == "ERR" && !strings.HasPrefix(res.End, "ERR "):
 		return fmt.Errorf("the automaton stops in a non-accepting state at %d:%d (lexical error), the lexer reports %q%s", eline, ecol, res.End, ctx)
 	case end == "ERR":
+		if strings.Contains(res.End, "%!") {
+			return fmt.Errorf("the lexical error at %d:%d is reported with a garbled text (the offending lexeme was used as a format): %q%s", eline, ecol, res.End, ctx)
+		}
 		if pos := fmt.Sprintf("input.txt:%d:%d", eline, ecol); !rec.MentionsPos(res.End, "input.txt", eline, ecol) {
 			return fmt.Errorf("the lexical error is at %s, the lexer reports %q%s", pos, res.End, ctx)
 		}
@@ -313,7 +324,7 @@ func compare(p *prepared, text string, res *emit.LexResult) error {
 // longUnit: tokens whose lexemes can be made long by repeating a unit.
 var longUnit = map[string]string{"ID": "ab9_", "NUM": "90", "STR": "xy+", "CYR": "яд", "CJK": "中文", "EACUTE": "é"}
 
-var nearMisses = []string{"1.", "@", "\"abc", "~", "1.x", "é", "\x01", "-", "=>>", "#A", "ж", "\u07ff", "\U0010FFFF", "\f", "\v", "\x1c", "\x1f", "\u0085", "\u00a0", "\u2028", "\u3000", "\x00", "\x00\x00", "\x00;"}
+var nearMisses = []string{"1.", "@", "\"abc", "~", "1.x", "é", "\x01", "-", "=>>", "#A", "ж", "\u07ff", "\U0010FFFF", "\f", "\v", "\x1c", "\x1f", "\u0085", "\u00a0", "\u2028", "\u3000", "\x00", "\x00\x00", "\x00;", "\"50%", "%d%s", "100%!", "%v", "\"%"}
 
 func genInput(t *rapid.T, p *prepared) string {
 	var b strings.Builder
